@@ -18,7 +18,7 @@ Inductive ast :=
 | AClosure (names : list str) (body : ast) (outer : list str) (recursive : bool) (this : str)
 | AMapLit (entries : list (str * ast))
 | AListLit (items : list ast)
-| AIdent (name : str)
+| AIdent (name : str) (isfunc : bool)                             (* Ident{Name, IsFunc} *)
 | AConst (c : str)
 | ACall (f : ast) (args : list ast).                            (* FunctionCall{Func, Args} *)
 
@@ -63,7 +63,7 @@ Fixpoint ast_eqb (x y : ast) {struct x} : bool :=
          | _, _ => false
          end) es es'
   | AListLit l, AListLit l' => lst l l'
-  | AIdent n, AIdent n' => str_eqb n n'
+  | AIdent n b, AIdent n' b' => str_eqb n n' && Bool.eqb b b'
   | AConst c, AConst c' => str_eqb c c'
   | ACall f a, ACall f' a' => ast_eqb f f' && lst a a'
   | _, _ => false
